@@ -110,7 +110,8 @@ def generate(rng, tier):
         # one system's execute() lets an exception escape at some timestep (a bare next() on an exhausted iterator, a
         # missing key ...): either the caller sees it, or - if the request returns normally - nothing due was skipped
         raises = {"k": rng.randrange(n), "t": rng.randint(0, max(1, horizon // 2)),
-                  "exc": rng.choice(["StopIteration", "StopIteration", "KeyError", "ValueError", "GeneratorExit", "LookupError"])}
+                  "exc": rng.choice(["StopIteration", "StopIteration", "KeyError", "ValueError", "GeneratorExit", "LookupError",
+                                     "ModelCompleteError", "ModelCompleteError", "SystemNotFoundError"])}
     for s in systems:
         if rng.random() < 0.12:      # window bounds that are numpy integers (taken out of an array, say)
             s["np"] = rng.choice([["start"], ["start"], ["start", "end"], ["freq"], ["start", "end", "freq"], ["end"]])
@@ -134,7 +135,8 @@ def npify(spec):
 
 
 RAISES = {"StopIteration": StopIteration, "KeyError": KeyError, "ValueError": ValueError, "GeneratorExit": GeneratorExit,
-          "LookupError": LookupError}
+          "LookupError": LookupError, "ModelCompleteError": __import__("ECAgent.Core", fromlist=["x"]).ModelCompleteError,
+          "SystemNotFoundError": __import__("ECAgent.Core", fromlist=["x"]).SystemNotFoundError}
 
 
 class World:
@@ -156,6 +158,8 @@ class World:
         if self.armed and r and self.systems and t >= r["t"] and self.systems[r["k"] % len(self.systems)]["id"] == s.id:
             self.armed = False
             self.raised = True
+            if r["exc"] == "ModelCompleteError":
+                raise RAISES[r["exc"]]()       # what stepping an already completed inner model with throw_error=True raises
             raise RAISES[r["exc"]](f"scripted failure of {s.id} at t={t}")
         for sp in self.spawns:
             if sp["t"] == t and self.systems and self.systems[sp["by"] % len(self.systems)]["id"] == s.id:
